@@ -26,7 +26,7 @@ MAIN_KINDS = ["rec", "rec", "rec", "rec_noepoch", "torch_seq", "torch_rand", "kd
 
 
 def gen_cases(run):
-    n = run.n(15000, 1600000)
+    n = run.n(30000, 1600000)
     rng = run.rng
     for _ in range(n):
         g = H.gen_geometry(rng, big=True)
